@@ -7,7 +7,7 @@
     begin <tid> <status> <user> <desc> <ext>   (tid hex, status decimal char code) → ok
     recd <oid> <serial> <prev> <bytes>      data record (oid/serial hex, prev decimal)  → ok
     recb <oid> <serial> <prev> <back>       back-pointer record                         → ok
-    commit | abortvote | votefail <n> | abort
+    commit | abortvote | votefail <n> | abort | fsyncfail
                                             → ok pos=<_pos> len=<image length> fnv=<image hash>
     events                                  → w@<off>+<len>#<fnv> … t@<n> fsync ret
     cut <k> <nb>                            → img len= fnv= rec n= pos= ltid= how= len= fnv=  | … err:<kind>
@@ -74,6 +74,7 @@ def evStr : Ev → String
   | .write off d => "w@" ++ toString off ++ "+" ++ toString d.length ++ "#" ++ hexN 8 (fnv64 d)
   | .trunc n => "t@" ++ toString n
   | .fsync => "fsync"
+  | .fsyncFailed => "fsync-failed"
   | .ret => "ret"
 
 def runOp (s : DS) (op : Op) : DS × String :=
@@ -162,6 +163,10 @@ def step (s : DS) (toks : List String) : DS × String :=
     match s.pending, n.toNat? with
     | some t, some n => runOp s (.voteFails t n)
     | _, _ => (s, "bad-op")
+  | ["fsyncfail"] =>
+    match s.pending with
+    | some t => runOp s (.finishFsyncFails t)
+    | none => (s, "bad-op")
   | ["abort"] => runOp s .abortBeforeVote
   | ["events"] => (s, joinWith " " (s.evs.toList.map evStr))
   | ["wf"] => (s, if decide (FileWF s.cs) then "1" else "0")
